@@ -537,8 +537,10 @@ class Interp:
                 if name in ('call_later', 'call_at', 'add_timeout', 'run_in_executor') and len(n.args) > 1:
                     a0 = n.args[1]
                 target = a0
-            self.add(st, Ev('DEFER', line, name, argtags, src(target) if target is not None else None,
-                            {'node': n, 'target': target, 'recv': src(recv)}))
+            # a named temporary for the callback (wake = self.condition.notify; loop.add_callback(wake)) is seen through
+            tsub = self.subst_pure(st, target) if target is not None else None
+            self.add(st, Ev('DEFER', line, name, argtags, src(tsub) if tsub is not None else None,
+                            {'node': n, 'target': tsub, 'recv': src(recv)}))
         elif recv_field is not None and name in MUT_ADD:
             self.forget(st, 'self.' + recv_field)
             self.add(st, Ev('ST', line, recv_field, argtags, name,
@@ -1024,7 +1026,8 @@ class Interp:
                 if e.kind == 'RETURN' and e.depth == len(self.stack):
                     rt, rs = e.b or frozenset(), (e.x or {}).get('shape', OTHER)
                     break
-            if awaited:
+            if awaited and callee.is_coro:
+                # (a plain generator driven by `yield from` suspends only where its own body yields)
                 back.events.append(self._mk(Ev('SUS', call.lineno, src(call), rt, 'spliced',
                                                {'node': call})))
             yield from cont(back, rt, rs)
